@@ -563,8 +563,13 @@ func (s *Store) gcIndex(ctx context.Context) error {
 		// check if the referrers manifest can traverse to the existing graph
 		subject := &desc
 		for {
-			subject, err := manifestutil.Subject(ctx, s.storage, *subject)
+			var err error
+			subject, err = manifestutil.Subject(ctx, s.storage, *subject)
 			if err != nil {
+				if errors.Is(err, errdef.ErrNotFound) {
+					// the chain ends at a subject that is not in the store
+					break
+				}
 				return err
 			}
 			if subject == nil {
